@@ -168,14 +168,29 @@ func (g *Gen) pick(label string, xs []string) string {
 	return rapid.SampledFrom(xs).Draw(g.t, label)
 }
 
-func (g *Gen) pct(label string, p int) bool {
+func (g *Gen) pct(label string, p int) bool { return Pct(g.t, label, p) }
+
+// Pct is true with probability p/100. rapid's integer generators are biased
+// towards small values (a 2% branch drawn with IntRange(0,99) fires ~25% of
+// the time), so the draw is assembled from fair coin flips instead.
+func Pct(t *rapid.T, label string, p int) bool {
 	if p <= 0 {
 		return false
 	}
 	if p >= 100 {
 		return true
 	}
-	return rapid.IntRange(0, 99).Draw(g.t, label) < p
+	v := 0
+	for i := 0; i < 7; i++ {
+		v <<= 1
+		if rapid.Bool().Draw(t, label) {
+			v |= 1
+		}
+	}
+	if v >= 100 {
+		v -= 100
+	}
+	return v < p
 }
 
 // Case draws a complete case.
